@@ -2,7 +2,8 @@
   C18 — socket buffers are bounded FIFO queues; identifiers are unique, in range, not reissued
   before the range wraps; nng_id_map is a finite map.
 
-  Property theorems only (lemmas: Proofs/{Ring,Lmq,Msgq,IdHash,Probe}.lean).
+  Property theorems only (lemmas: Proofs/{Ring,Lmq,Msgq,IdHash,Probe,IdTable,IdTableOps,IdResize,IdOps,
+  IdSpecLemmas,IdRefine,IdVisit,ProbeAll}.lean).
   `Nng.Lmq`, `Nng.Msgq`, `Nng.IdHash` are the executable models of lmq.c, msgqueue.c, idhash.c (tied
   to the C code by the correspondence check); `Nng.QSpec` is the specification.
 -/
@@ -10,6 +11,8 @@ import NngModel.Proofs.Lmq
 import NngModel.Proofs.Msgq
 import NngModel.Proofs.IdHash
 import NngModel.Proofs.Probe
+import NngModel.Proofs.IdVisit
+import NngModel.Proofs.ProbeAll
 namespace Nng.C18
 open Nng Nng.QSpec
 
@@ -185,21 +188,23 @@ theorem idmap_init_wf (lo hi : Nat) (random : Bool) (hhi : hi < IdHash.u64)
     (hlh : (if lo = 0 then Nng.Generated.c18IdDefaultLo else lo) ≤ (if hi = 0 then Nng.Generated.c18IdDefaultHi else hi)) :
     IdHash.CurWF (IdHash.mapInit lo hi random) := IdHash.mapInit_curWF lo hi random hhi hlh
 
-/-- I2. One nni_id_alloc call, in any state with a well-formed cursor, for every allocator answer
-    and every random number: the cursor stays well formed; a returned identifier lies in
-    [lo, hi] and was not findable (id_find) in the map before the call; a failure is NNG_ENOMEM
-    and happens only when more than hi − lo entries are stored, or the allocator failed
-    (or the model's loop fuel ran out: excluded by the `_statement` below, not yet proved). -/
-theorem idmap_alloc_in_range_and_fresh_partial {m : IdHash.IdMap} (h : IdHash.CurWF m) (v rnd : Nat) (ok : Bool) :
+/-- I2. One nni_id_alloc call, in any state with a well-formed cursor whose `count` is at least the
+    number of occupied slots, for every allocator answer and every random number: the cursor stays
+    well formed; a returned identifier lies in [lo, hi] and was not findable (id_find) in the map
+    before the call; a failure is NNG_ENOMEM and happens only when more than hi − lo entries are
+    stored, or the allocator failed.  (The search loop always ends within `count + 1` iterations:
+    pigeonhole over the identifiers after the cursor.) -/
+theorem idmap_alloc_in_range_and_fresh {m : IdHash.IdMap} (h : IdHash.CurWF m)
+    (hcnt : IdHash.liveCnt m.entries ≤ m.count) (v rnd : Nat) (ok : Bool) :
     IdHash.CurWF (IdHash.idAlloc m v rnd ok).m ∧
     ((IdHash.idAlloc m v rnd ok).rv = 0 →
         m.minVal ≤ (IdHash.idAlloc m v rnd ok).id ∧ (IdHash.idAlloc m v rnd ok).id ≤ m.maxVal ∧
         (IdHash.idFind m (IdHash.idAlloc m v rnd ok).id).1 = none) ∧
     ((IdHash.idAlloc m v rnd ok).rv ≠ 0 →
         (IdHash.idAlloc m v rnd ok).rv = Err.enomem ∧
-        (m.count > m.maxVal - m.minVal ∨ ok = false ∨ (IdHash.idAlloc m v rnd ok).safe = false)) := by
-  obtain ⟨a, b, c, _⟩ := IdHash.idAlloc_spec h v rnd ok
-  exact ⟨a, b, c⟩
+        (m.count > m.maxVal - m.minVal ∨ ok = false)) := by
+  obtain ⟨a, b, _, _⟩ := IdHash.idAlloc_spec h v rnd ok
+  exact ⟨a, b, IdHash.idAlloc_fail_only h hcnt v rnd ok⟩
 
 /-- I3. Not reissued before the range wraps: in every run of set/remove/alloc operations (any
     interleaving, any allocator behaviour) during which the cursor is never reset to the lower
@@ -210,22 +215,88 @@ theorem idmap_not_reissued_before_wrap (ops : List (IdHash.IOp × Bool)) (m : Id
     (IdHash.issued (IdHash.allocRuns m ops)).Pairwise (· < ·) :=
   (IdHash.issued_increasing ops m h hw).2
 
-/-- I4. id_find / nni_id_get never index outside the table and their loop ends within `cap` steps,
-    given the probe cycle closes. -/
-theorem idmap_find_in_bounds_partial {m : IdHash.IdMap} (hlen : m.entries.length = m.cap)
-    (hcap : m.count ≠ 0 → 0 < m.cap) (hcyc : IdHash.ProbeCovers m.cap) (id : Nat) :
-    (IdHash.idFind m id).2 = true ∧ (IdHash.idGet m id).2 = true ∧
-    ∀ i, (IdHash.idFind m id).1 = some i → i < m.cap :=
-  ⟨(IdHash.idFind_safe hlen hcap hcyc.cycle id).1, IdHash.idGet_safe hlen hcap hcyc.cycle id,
-   (IdHash.idFind_safe hlen hcap hcyc.cycle id).2⟩
-
 /-- I5. The probe `j ↦ (5j+1) & (cap-1)` visits every cell and returns to its start after `cap`
-    steps, for every table capacity from 8 to 4096 (kernel-checked computation; the general
-    power-of-two statement is not proved). -/
+    steps, for every power-of-two capacity (2-adic lifting; Hull–Dobell for a = 5, c = 1). -/
+theorem idmap_probe_covers_all (n : Nat) : IdHash.ProbeCovers (2 ^ n) := IdHash.probeCovers_two_pow n
+
+/-- the same for the capacities 8 … 4096 by a kernel-checked computation (independent of the proof above) -/
 theorem idmap_probe_covers_upto_4096 : ∀ n, n ∈ [3, 4, 5, 6, 7, 8, 9, 10, 11, 12] → IdHash.ProbeCovers (2 ^ n) :=
   IdHash.probeCovers_small
 
-/-! ### what is not proved (full statements) -/
+private theorem allPow : ∀ n, 3 ≤ n → IdHash.ProbeCovers (2 ^ n) := fun n _ => IdHash.probeCovers_two_pow n
+
+/-- I4. id_find / nni_id_get never index outside the table and their loop ends within `cap` steps,
+    for an entry array of `cap` cells, `cap` zero (empty map) or a power of two. -/
+theorem idmap_find_in_bounds {m : IdHash.IdMap} (hlen : m.entries.length = m.cap)
+    (hcap : m.count ≠ 0 → 0 < m.cap) (hpow : m.cap = 0 ∨ ∃ n, m.cap = 2 ^ n) (id : Nat) :
+    (IdHash.idFind m id).2 = true ∧ (IdHash.idGet m id).2 = true ∧
+    ∀ i, (IdHash.idFind m id).1 = some i → i < m.cap := by
+  have hcyc : IdHash.ProbeCycle m.cap := by
+    rcases hpow with h0 | ⟨n, hn⟩
+    · intro s hs; omega
+    · rw [hn]; exact (IdHash.probeCovers_two_pow n).cycle
+  exact ⟨(IdHash.idFind_safe hlen hcap hcyc id).1, IdHash.idGet_safe hlen hcap hcyc id,
+    (IdHash.idFind_safe hlen hcap hcyc id).2⟩
+
+/-! ### the hash table is a finite map -/
+
+/-- I6. nni_id_map_init establishes the representation invariant `Rep` (open-addressing invariant of
+    the table: every stored key is reached from its home cell along the probe sequence, `skips[t]`
+    = number of stored keys whose probe path crosses `t`, `load` = number of probes spent, `count`
+    = number of occupied cells, occupied cells hold pairwise distinct keys; capacity 0 or a power
+    of two ≥ 8 with a free cell; well-formed cursor) against the empty finite map. -/
+theorem idmap_init_rep (lo hi : Nat) (random : Bool) (hhi : hi < IdHash.u64)
+    (hlh : (if lo = 0 then Nng.Generated.c18IdDefaultLo else lo) ≤ (if hi = 0 then Nng.Generated.c18IdDefaultHi else hi)) :
+    IdHash.Rep (IdHash.mapInit lo hi random) (IdSpec.init lo hi random) := IdHash.mapInit_rep lo hi random hhi hlh
+
+/-- I7. In every state that represents a finite map `s`: nni_id_get returns the value last set and
+    not removed (NULL for an absent key) without leaving the table; `nni_id_count` is the number of
+    keys; a full nni_id_visit enumeration yields exactly the pairs of `s`, each once, and ends (sorted
+    by key it is the specification's `visit`); the keys are pairwise distinct. -/
+theorem idmap_get_count_visit {m : IdHash.IdMap} {s : IdSpec} (h : IdHash.Rep m s) :
+    (∀ k, IdHash.idGet m k = (s.get k, true)) ∧ IdHash.idCount m = s.count ∧
+    IdHash.visitAll m (m.cap + 1) 0 [] true = (IdHash.livePairs m.entries 0 m.cap, true) ∧
+    (IdHash.livePairs m.entries 0 m.cap).Perm s.m ∧
+    sortPairs (IdHash.livePairs m.entries 0 m.cap) = s.visit ∧ KeysNodup s.m :=
+  ⟨h.get allPow, h.count, h.visit.1, h.visit.2.1, h.visit.2.2.2, h.nodup⟩
+
+/-- I8. nni_id_set with a non-NULL value, any allocator answer: in bounds; either it is the finite
+    map's set (an existing key is overwritten, a new key is added; resizes keep the content) or —
+    only if the allocator failed — NNG_ENOMEM and nothing changed. -/
+theorem idmap_set_refines {m : IdHash.IdMap} {s : IdSpec} (h : IdHash.Rep m s)
+    (k v : Nat) (hv : v ≠ 0) (ok : Bool) :
+    (IdHash.idSet m k v ok).2.2 = true ∧
+    (((IdHash.idSet m k v ok).2.1 = 0 ∧ IdHash.Rep (IdHash.idSet m k v ok).1 (s.set k v)) ∨
+     (ok = false ∧ (IdHash.idSet m k v ok).2.1 = Err.enomem ∧ (IdHash.idSet m k v ok).1 = m)) :=
+  IdHash.idSet_rep h allPow k v hv ok
+
+/-- I9. nni_id_remove, any allocator answer (a failed shrink is ignored): in bounds; same return code
+    as the finite map (NNG_ENOENT for an absent key) and the same resulting map. -/
+theorem idmap_remove_refines {m : IdHash.IdMap} {s : IdSpec} (h : IdHash.Rep m s)
+    (k : Nat) (ok : Bool) :
+    (IdHash.idRemove m k ok).2.2 = true ∧ (IdHash.idRemove m k ok).2.1 = (s.remove k).2 ∧
+    IdHash.Rep (IdHash.idRemove m k ok).1 (s.remove k).1 :=
+  IdHash.idRemove_rep h allPow k ok
+
+/-- I10. nni_id_alloc with a non-NULL value, any allocator answer and random number: in bounds, the
+    loop ends; same return code, identifier and cursor as the finite map's alloc (first unused id at
+    or after the cursor, cyclically; NNG_ENOMEM exactly when more than hi − lo keys are stored), or —
+    only if the allocator failed — NNG_ENOMEM with the chosen identifier skipped. -/
+theorem idmap_alloc_refines {m : IdHash.IdMap} {s : IdSpec} (h : IdHash.Rep m s)
+    (v rnd : Nat) (hv : v ≠ 0) (ok : Bool) :
+    (IdHash.idAlloc m v rnd ok).safe = true ∧
+    (((IdHash.idAlloc m v rnd ok).rv = (s.alloc v rnd).2.1 ∧ (IdHash.idAlloc m v rnd ok).id = (s.alloc v rnd).2.2 ∧
+        IdHash.Rep (IdHash.idAlloc m v rnd ok).m (s.alloc v rnd).1) ∨
+     (ok = false ∧ (IdHash.idAlloc m v rnd ok).rv = Err.enomem ∧
+        IdHash.Rep (IdHash.idAlloc m v rnd ok).m (s.allocFail rnd))) :=
+  IdHash.idAlloc_rep h allPow v rnd hv ok
+
+/-- I11. Specification level: the keys of the finite map stay pairwise distinct under every
+    operation. -/
+theorem idspec_keys_distinct (s : IdSpec) (hn : KeysNodup s.m) :
+    (∀ k v, KeysNodup (s.set k v).m) ∧ (∀ k, KeysNodup (s.remove k).1.m) ∧
+    (∀ v rnd, KeysNodup (s.alloc v rnd).1.m) ∧ (∀ rnd, KeysNodup (s.allocFail rnd).m) :=
+  ⟨s.keysNodup_set hn, s.keysNodup_remove hn, s.keysNodup_alloc hn, s.keysNodup_allocFail hn⟩
 
 /-- observation of one map operation: (return code, identifier or value) -/
 def idModelObs (m : IdHash.IdMap) : List (IdHash.IOp × Bool) → List (Nat × Nat)
@@ -242,19 +313,138 @@ def idSpecObs (s : IdSpec) : List (IdHash.IOp × Bool) → List (Nat × Nat)
   | (.remove k, _) :: rest => ((s.remove k).2, 0) :: idSpecObs (s.remove k).1 rest
   | (.alloc v rnd, _) :: rest => ((s.alloc v rnd).2.1, (s.alloc v rnd).2.2) :: idSpecObs (s.alloc v rnd).1 rest
 
-/-- NOT PROVED (checked by differential execution only): with a succeeding allocator and non-NULL
-    values, every run of the hash-table model from nni_id_map_init is observationally equal to the
-    finite-map specification (so live identifiers are pairwise distinct, alloc fails only when the
-    range is exhausted, get/set/remove/visit are those of a finite map) and is safe.  Needs the
-    open-addressing invariant (`skips[s]` = number of stored keys whose probe path crosses `s`,
-    `load` accounting, capacity a power of two) together with `ProbeCovers`. -/
-def idmap_refines_finite_map_statement : Prop :=
-  ∀ (lo hi : Nat) (random : Bool) (ops : List (IdHash.IOp × Bool)),
-    hi < IdHash.u64 →
-    (if lo = 0 then Nng.Generated.c18IdDefaultLo else lo) ≤ (if hi = 0 then Nng.Generated.c18IdDefaultHi else hi) →
-    (∀ p, p ∈ ops → p.2 = true ∧ ∀ k v, p.1 = .set k v → v ≠ 0 ∧ k < IdHash.u64) →
-    (∀ n, IdHash.ProbeCovers (2 ^ n)) →
-    idModelObs (IdHash.mapInit lo hi random) ops = idSpecObs (IdSpec.init lo hi random) ops
+/-- the model state / the specification state after a run, and "every table access of the run was
+    in bounds and every loop ended" -/
+def idModelRun (m : IdHash.IdMap) : List (IdHash.IOp × Bool) → IdHash.IdMap
+  | [] => m
+  | (.set k v, ok) :: rest => idModelRun (IdHash.idSet m k v ok).1 rest
+  | (.remove k, ok) :: rest => idModelRun (IdHash.idRemove m k ok).1 rest
+  | (.alloc v rnd, ok) :: rest => idModelRun (IdHash.idAlloc m v rnd ok).m rest
+
+def idSpecRun (s : IdSpec) : List (IdHash.IOp × Bool) → IdSpec
+  | [] => s
+  | (.set k v, _) :: rest => idSpecRun (s.set k v) rest
+  | (.remove k, _) :: rest => idSpecRun (s.remove k).1 rest
+  | (.alloc v rnd, _) :: rest => idSpecRun (s.alloc v rnd).1 rest
+
+def idModelSafe (m : IdHash.IdMap) : List (IdHash.IOp × Bool) → Bool
+  | [] => true
+  | (.set k v, ok) :: rest => (IdHash.idSet m k v ok).2.2 && idModelSafe (IdHash.idSet m k v ok).1 rest
+  | (.remove k, ok) :: rest => (IdHash.idRemove m k ok).2.2 && idModelSafe (IdHash.idRemove m k ok).1 rest
+  | (.alloc v rnd, ok) :: rest => (IdHash.idAlloc m v rnd ok).safe && idModelSafe (IdHash.idAlloc m v rnd ok).m rest
+
+/-- operations of a run with a succeeding allocator and non-NULL values -/
+def IdOpsOk (ops : List (IdHash.IOp × Bool)) : Prop :=
+  ∀ p, p ∈ ops → p.2 = true ∧ (∀ k v, p.1 = .set k v → v ≠ 0) ∧ (∀ v rnd, p.1 = .alloc v rnd → v ≠ 0)
+
+/-- I12. Every run of set/remove/alloc operations (succeeding allocator, non-NULL values) from a state
+    that represents a finite map is observationally equal to the finite-map specification, is in
+    bounds with all loops ending, and ends in a state that again represents the specification's
+    state — so I7 (get, count, visit, distinct keys) holds after every prefix of every run. -/
+theorem idmap_run_refines :
+    ∀ (ops : List (IdHash.IOp × Bool)) (m : IdHash.IdMap) (s : IdSpec), IdHash.Rep m s → IdOpsOk ops →
+      idModelObs m ops = idSpecObs s ops ∧ idModelSafe m ops = true ∧
+      IdHash.Rep (idModelRun m ops) (idSpecRun s ops) := by
+  intro ops
+  induction ops with
+  | nil => intro m s h _; exact ⟨rfl, rfl, h⟩
+  | cons p rest ih =>
+    intro m s h hops
+    have hp := allPow
+    obtain ⟨op, ok⟩ := p
+    obtain ⟨hok, hset, halloc⟩ := hops (op, ok) (by simp)
+    have hrest : IdOpsOk rest := fun q hq => hops q (by simp [hq])
+    have hok' : ok = true := hok
+    subst hok'
+    cases op with
+    | set k v =>
+      obtain ⟨ss, sr⟩ := IdHash.idSet_rep h hp k v (hset k v rfl) true
+      rcases sr with ⟨rv0, hr⟩ | ⟨hf, _⟩
+      · obtain ⟨a, b, c⟩ := ih _ _ hr hrest
+        have hg := hr.get hp k
+        simp only [idModelObs, idSpecObs, idModelSafe, idModelRun, idSpecRun, a, b, ss, rv0, hg, Bool.and_self]
+        exact ⟨trivial, trivial, c⟩
+      · exact absurd hf (by simp)
+    | remove k =>
+      obtain ⟨rs, rv, hr⟩ := IdHash.idRemove_rep h hp k true
+      obtain ⟨a, b, c⟩ := ih _ _ hr hrest
+      simp only [idModelObs, idSpecObs, idModelSafe, idModelRun, idSpecRun, a, b, rs, rv, Bool.and_self]
+      exact ⟨trivial, trivial, c⟩
+    | alloc v rnd =>
+      obtain ⟨ss, sr⟩ := IdHash.idAlloc_rep h hp v rnd (halloc v rnd rfl) true
+      rcases sr with ⟨rv, hid, hr⟩ | ⟨hf, _⟩
+      · obtain ⟨a, b, c⟩ := ih _ _ hr hrest
+        simp only [idModelObs, idSpecObs, idModelSafe, idModelRun, idSpecRun, a, b, ss, rv, hid, Bool.and_self]
+        exact ⟨trivial, trivial, c⟩
+      · exact absurd hf (by simp)
+
+/-- `ops` (any allocator answers) run on the model from `m` is explained by the finite map from `s`:
+    every step is in bounds and either is the specification's step (same return code, value,
+    identifier) or — only under a failing allocator — reports NNG_ENOMEM and stores nothing (set:
+    no change at all; alloc: the chosen identifier is skipped) -/
+def IdExplains : IdHash.IdMap → IdSpec → List (IdHash.IOp × Bool) → Prop
+  | _, _, [] => True
+  | m, s, (.set k v, ok) :: rest =>
+    (IdHash.idSet m k v ok).2.2 = true ∧
+    (((IdHash.idSet m k v ok).2.1 = 0 ∧ (IdHash.idGet (IdHash.idSet m k v ok).1 k).1 = (s.set k v).get k ∧
+        IdExplains (IdHash.idSet m k v ok).1 (s.set k v) rest) ∨
+     (ok = false ∧ (IdHash.idSet m k v ok).2.1 = Err.enomem ∧ (IdHash.idSet m k v ok).1 = m ∧ IdExplains m s rest))
+  | m, s, (.remove k, ok) :: rest =>
+    (IdHash.idRemove m k ok).2.2 = true ∧ (IdHash.idRemove m k ok).2.1 = (s.remove k).2 ∧
+    IdExplains (IdHash.idRemove m k ok).1 (s.remove k).1 rest
+  | m, s, (.alloc v rnd, ok) :: rest =>
+    (IdHash.idAlloc m v rnd ok).safe = true ∧
+    (((IdHash.idAlloc m v rnd ok).rv = (s.alloc v rnd).2.1 ∧ (IdHash.idAlloc m v rnd ok).id = (s.alloc v rnd).2.2 ∧
+        IdExplains (IdHash.idAlloc m v rnd ok).m (s.alloc v rnd).1 rest) ∨
+     (ok = false ∧ (IdHash.idAlloc m v rnd ok).rv = Err.enomem ∧
+        IdExplains (IdHash.idAlloc m v rnd ok).m (s.allocFail rnd) rest))
+
+/-- I14. Every run with arbitrary allocator answers (non-NULL values) from a state that represents a
+    finite map is explained by the finite-map specification in the sense of `IdExplains`. -/
+theorem idmap_run_refines_any_allocator : ∀ (ops : List (IdHash.IOp × Bool)) (m : IdHash.IdMap) (s : IdSpec),
+    IdHash.Rep m s →
+    (∀ p, p ∈ ops → (∀ k v, p.1 = .set k v → v ≠ 0) ∧ (∀ v rnd, p.1 = .alloc v rnd → v ≠ 0)) →
+    IdExplains m s ops := by
+  intro ops
+  induction ops with
+  | nil => intro m s _ _; trivial
+  | cons p rest ih =>
+    intro m s h hops
+    have hp := allPow
+    obtain ⟨op, ok⟩ := p
+    obtain ⟨hset, halloc⟩ := hops (op, ok) (by simp)
+    have hrest : ∀ q, q ∈ rest → _ := fun q hq => hops q (by simp [hq])
+    cases op with
+    | set k v =>
+      obtain ⟨ss, sr⟩ := IdHash.idSet_rep h hp k v (hset k v rfl) ok
+      refine ⟨ss, ?_⟩
+      rcases sr with ⟨rv0, hr⟩ | ⟨hf, rve, rm⟩
+      · exact Or.inl ⟨rv0, by rw [hr.get hp k], ih _ _ hr hrest⟩
+      · exact Or.inr ⟨hf, rve, rm, ih _ _ h hrest⟩
+    | remove k =>
+      obtain ⟨rs, rv, hr⟩ := IdHash.idRemove_rep h hp k ok
+      exact ⟨rs, rv, ih _ _ hr hrest⟩
+    | alloc v rnd =>
+      obtain ⟨ss, sr⟩ := IdHash.idAlloc_rep h hp v rnd (halloc v rnd rfl) ok
+      refine ⟨ss, ?_⟩
+      rcases sr with ⟨rv, hid, hr⟩ | ⟨hf, rve, hr⟩
+      · exact Or.inl ⟨rv, hid, ih _ _ hr hrest⟩
+      · exact Or.inr ⟨hf, rve, ih _ _ hr hrest⟩
+
+/-- I13. The id map is a finite map: every run from nni_id_map_init (any range lo ≤ hi < 2^64, random
+    or not; succeeding allocator, non-NULL values) yields the return codes, values and identifiers
+    of the finite-map specification; get returns the value last set and not removed, remove of an
+    absent key is NNG_ENOENT, alloc fails exactly when the range is exhausted; live identifiers are
+    pairwise distinct; no table access leaves the table and every loop ends.  (Failing allocator:
+    I8–I10.) -/
+theorem idmap_refines_finite_map (lo hi : Nat) (random : Bool) (ops : List (IdHash.IOp × Bool))
+    (hhi : hi < IdHash.u64)
+    (hlh : (if lo = 0 then Nng.Generated.c18IdDefaultLo else lo) ≤ (if hi = 0 then Nng.Generated.c18IdDefaultHi else hi))
+    (hops : IdOpsOk ops) :
+    idModelObs (IdHash.mapInit lo hi random) ops = idSpecObs (IdSpec.init lo hi random) ops ∧
+    idModelSafe (IdHash.mapInit lo hi random) ops = true ∧
+    IdHash.Rep (idModelRun (IdHash.mapInit lo hi random) ops) (idSpecRun (IdSpec.init lo hi random) ops) :=
+  idmap_run_refines ops _ _ (IdHash.mapInit_rep lo hi random hhi hlh) hops
 
 /-- the error numbers used by the models are those of include/nng/nng.h (extracted) -/
 theorem err_numbers :
@@ -295,11 +485,31 @@ example : (msgqRun (Msgq.init 2)
 
 example : IdHash.CurWF (IdHash.mapInit 3 5 false) := idmap_init_wf 3 5 false (by decide) (by decide)
 
+example : IdHash.liveCnt (IdHash.mapInit 3 5 false).entries ≤ (IdHash.mapInit 3 5 false).count := by decide
+
 /-- tiny range that wraps: ids 3,4,5 then (after removing 4) 4 again, with the wrap recorded -/
 example : (IdHash.allocRuns (IdHash.mapInit 3 5 false)
     [(.alloc 1 0, true), (.alloc 1 0, true), (.alloc 1 0, true), (.alloc 1 0, true), (.remove 4, true), (.alloc 1 0, true)]).map
       (fun r => (r.rv, r.id, r.wrapped, r.safe))
     = [(0, 3, false, true), (0, 4, false, true), (0, 5, true, true), (Err.enomem, 0, false, true), (0, 4, false, true)] := by
   decide
+
+/-- a run with growth (8 → 16 cells), overwrite, removals (shrink back), allocation: the final state
+    represents the specification's final map -/
+example :
+    let ops : List (IdHash.IOp × Bool) :=
+      [(.set 3 7, true), (.set 11 8, true), (.set 19 9, true), (.set 27 1, true), (.set 35 2, true), (.set 43 3, true),
+       (.set 11 5, true), (.remove 19, true), (.remove 99, true), (.alloc 4 0, true), (.remove 3, true), (.remove 27, true)]
+    IdHash.Rep (idModelRun (IdHash.mapInit 10 50 false) ops) (idSpecRun (IdSpec.init 10 50 false) ops) ∧
+    (idSpecRun (IdSpec.init 10 50 false) ops).m = [(11, 5), (35, 2), (43, 3), (10, 4)] ∧
+    idModelObs (IdHash.mapInit 10 50 false) ops =
+      [(0, 7), (0, 8), (0, 9), (0, 1), (0, 2), (0, 3), (0, 5), (0, 0), (Err.enoent, 0), (0, 10), (0, 0), (0, 0)] := by
+  intro ops
+  have hops : IdOpsOk ops := by
+    intro p hp
+    simp only [ops, List.mem_cons, List.mem_nil_iff, or_false] at hp
+    rcases hp with rfl | rfl | rfl | rfl | rfl | rfl | rfl | rfl | rfl | rfl | rfl | rfl <;>
+      refine ⟨rfl, ?_, ?_⟩ <;> intro a b h <;> cases h <;> decide
+  exact ⟨(idmap_refines_finite_map 10 50 false ops (by decide) (by decide) hops).2.2, by decide, by decide⟩
 
 end Nng.C18
